@@ -127,6 +127,25 @@ CHECKS = {
         "Malformed file names in lookup directories are outside (inspected at listing time).",
    technique="TLA+ closure invariants checked by TLC; paired runs of every configuration against the implementation",
    design="4 C19"),
+ "C11": dict(
+   text="TLC checks on CrossDef.tla that the two pairwise loops of the implementation decide exactly the declarative rules "
+        "of the statement (LoopsDecideTheRules) for every pair of definitions over names x majors 0..2 x minors x kinds x "
+        "ports (none, 0, 5) x sealing x size classes, request and response separately. Every set is materialised in one "
+        "namespace and read; accepted vs rejected-with-InvalidDefinitionError is compared with the declarative rules.",
+   note="Pairs exhaustively (69k), triples sampled in the thorough tier. Violations located in lookup namespaces are covered "
+        "by four fixed scope cases.",
+   technique="TLA+ declarative rules vs pairwise loops checked by TLC; every set materialised and read",
+   design="4 C11"),
+ "C15": dict(
+   text="TLC enumerates on Paths.tla every spellable combination of path shape (depth, repeated root name, port, version, "
+        "name), working directory, target spelling and root designation with the declarative Identity function and the set "
+        "of documented (promised) combinations. Each is executed with real directories and chdir: successes must yield the "
+        "path-derived identity and back pointers, failures must be InvalidDefinitionError, promised combinations must "
+        "succeed; malformed file names are rejected.",
+   note="The four inference strategies are not transcribed into TLA+; the specification is the declarative contract. "
+        "int() leniency in file names is not judged.",
+   technique="TLA+ declarative identity/promise spec enumerated by TLC; every state executed against read_files/read_namespace",
+   design="4 C15"),
 }
 
 NOT_YET = "check not built yet in this round (see DESIGN.md section 9 build order)"
